@@ -521,6 +521,14 @@ class _ModEval:
             if any(v is True for v in vs):
                 return True
             return False if all(v is False for v in vs) else None
+        if isinstance(n, ast.Call) and dotted(n.func) in ("importlib.import_module", "import_module", "__import__") and len(n.args) == 1 and not n.keywords \
+                and isinstance(n.args[0], ast.Constant) and isinstance(n.args[0].value, str) and (dotted(n.func) != "__import__" or "." not in n.args[0].value):
+            name = n.args[0].value
+            if self.sc.get(name) is False:
+                raise _ModEval.Raise()
+            parts = name.split(".")
+            self.imported |= {".".join(parts[:i + 1]) for i in range(len(parts))}
+            return ("mod", name)
         if isinstance(n, ast.Call) and isinstance(n.func, ast.Name) and isinstance(env.get(n.func.id), tuple) and env[n.func.id][0] == "func":
             fn = env[n.func.id][1]
             local = dict(env)
@@ -553,6 +561,15 @@ class _ModEval:
                     self.imported |= {".".join(parts[:i + 1]) for i in range(len(parts))}
                     env[al.asname or al.name.split(".")[0]] = ("mod", al.name if al.asname else al.name.split(".")[0])
             elif isinstance(st, ast.ImportFrom):
+                module = st.module or ""
+                if st.level:
+                    # relative to the package of cyclecount.py (pyyeti): `from .rainflow import c_rain`, `from . import rainflow`
+                    pkg = "pyyeti".split(".")
+                    if st.level - 1 > len(pkg) - 1:
+                        raise _ModEval.Raise()
+                    base = pkg[:len(pkg) - (st.level - 1)]
+                    module = ".".join(base + ([module] if module else []))
+                st = ast.ImportFrom(module=module, names=st.names, level=0)
                 for al in st.names:
                     full = f"{st.module}.{al.name}"
                     if self.sc.get(st.module) is False or self.sc.get(full) is False:
